@@ -3,6 +3,6 @@ CHECKS = [
           technique="property-based testing (rapid): model-based stateful histories (peer-count changes via MockPeers callbacks, lazy sampler creation by several workers, real config reloads) against the closed-form oracle max(1, floor(goal/peers)) / goal, checked on every live throughput dynsampler after every step",
           quick=dict(checks=1500, budget_s=40),
           thorough=dict(checks=15000, shards=16, budget_s=400),
-          level_text="Generated rules files x histories of SetPeers/Create/Reload; after every step the goal in force on every live throughput dynsampler (all three throughput sampler types, top-level and rule-downstream, with and without UseClusterSize) is compared with the statement's formula. Exploration: finds wrong goals for the histories and goal/peer combinations the generator reaches (goals 1..1000, peers 1..200, aimed at goal<peers and non-divisible pairs); does not prove absence.",
-          level_note="GoalThroughputPerSec is read through sample/verif_hooks_c12.go (build tag verif). Definitions colliding under the known C12 finding (registry key ignores UseClusterSize) are excluded by construction. Peer lists are never empty; peer-count changes arrive through callbacks only. Sequential execution."),
+          level_text="Generated rules files x histories of SetPeers/Create/Reload/overlapping notifications; after every step the goal in force on every live throughput dynsampler (all three throughput sampler types, top-level and rule-downstream, with and without UseClusterSize) is compared with the statement's formula. Exploration: finds wrong goals for the histories and goal/peer combinations the generator reaches (goals 1..1000, peers 1..200, aimed at goal<peers and non-divisible pairs); does not prove absence.",
+          level_note="GoalThroughputPerSec is read through sample/verif_hooks_c12.go (build tag verif). Definitions colliding under the known C12 finding (registry key ignores UseClusterSize) are excluded by construction. Peer lists are never empty; peer-count changes arrive through callbacks only. Besides sequential steps, overlap steps hold one notification/creation right after it has read the membership (Peers test double) while the membership changes again and the next notification runs; only that interleaving is forced, verdicts come from the goals after all calls have finished."),
 ]
